@@ -484,6 +484,15 @@ class Explorer:
         ev = {'k': 'call', 'callee': name, 'decl': decl, 'args': args, 'bb': b, 'line': t['line'],
               'epoch': st.epoch, 'term': t, 'exp': t.get('exp', False), 'depth': fr.depth,
               'in': fr.body.id}
+        if 'def' not in t['callee']:
+            fo = t['callee'].get('fnptr') or t['callee'].get('indirect')
+            if fo is not None:
+                ev['fnptr'] = self.operand(st, fr, fo)
+                fv = strip_upd(ev['fnptr'])
+                while fv[0] == 'cast':
+                    fv = strip_upd(fv[2])
+                if fv[0] == 'c' and isinstance(fv[1], tuple) and fv[1][0] == 'fn':
+                    ev['fn_target'] = fv[1][1]
         st.path.events.append(ev)
         ret = None
         pure = False
@@ -571,6 +580,9 @@ class Explorer:
                 if res is not None:
                     ret, pure = res
                     ev['inlined'] = True
+        if ret is None and ev.get('fn_target') and self.purity is not None and self.purity.is_pure(ev['fn_target']):
+            pure = True
+            ret = ('pcall', ev['fn_target'], args, st.epoch)
         if ret is None:
             if self.purity is not None and self.purity.is_pure(name, t):
                 pure = True
